@@ -34,7 +34,7 @@ class Tasks {
     static constexpr int kMaxTasks = 8;
     // Reserve and prefill the stacks (call once per process, before fork()ing runs).
     static void prepare_stacks();
-    static void refill_stacks();  // 0xA5-fill all stacks again (between phases of one run)
+    static void refill_stacks(uint8_t fill = 0xA5);  // fill all stacks again (between phases of one run; with another residue byte)
 
     int spawn(const std::string &name, std::function<int()> entry);
     Task *cur() { return cur_; }
